@@ -164,6 +164,9 @@ def _layouts(ctx):
     for _ in range(m):                                # integer-valued floats: exact ties become "near"
         n = rng.randint(2, 12)
         out.append([float(v) for v in sorted(rng.sample(range(0, 33), n))])
+    for _ in range(max(4, m // 4)):                   # a tight group and a far outlier: normalised distances around 1e-7
+        n = rng.randint(3, 8)
+        out.append([float(v) for v in sorted(rng.sample(range(0, 12), n))] + [float(rng.choice([10 ** 7, 3 * 10 ** 7, 2 ** 24]))])
     return [x for x in out if all(x[j] < x[j + 1] for j in range(len(x) - 1)) and x[-1] - x[0] >= 1.0]
 
 
@@ -173,6 +176,8 @@ def _thresholds(rng, x):
     ts.append((x[j] - x[j - 1]) / (x[-1] - x[0]))      # harvested: an observed normalised gap
     if rng.random() < 0.3:
         ts.append(rng.choice([1.5, 3.0, 50.0]))        # t > 1 is a valid threshold: normalised distances never reach it
+    if x[-1] - x[0] >= 10 ** 6:
+        ts += [5e-8, 2.5e-7]                            # tiny thresholds are valid too (t > 0)
     return sorted(set(t for t in ts if t > 0))
 
 
